@@ -2,7 +2,7 @@
 """Markdown table: seeded change -> verdict and the rules that report it (used for DESIGN.md section 8)."""
 import json, os, subprocess, sys, tempfile, re
 from concurrent.futures import ThreadPoolExecutor
-names = sorted(os.listdir("/verif/seeded"))
+names = sorted(n for n in os.listdir("/verif/seeded") if os.path.isdir(f"/verif/seeded/{n}"))
 def run(name):
     d = f"/verif/seeded/{name}"
     meta = json.load(open(f"{d}/meta.json"))
